@@ -310,10 +310,17 @@ def r13_try(src, item, ed, opts):
     if opts.get("try_all"):
         sites = [dict(opts["try_all"], n=k) for k in range(len(tries))]
     for sp in sites:
-        k = sp["n"]
-        if k >= len(tries):
-            raise LostAnchor(f"`?` #{k} of {item['path']}")
-        n = tries[k]
+        if sp.get("contains"):
+            # a `?` named by what it is applied to; gone = nothing to convert
+            c = [t for t in tries if sp["contains"].replace(" ", "") in re.sub(r"\s+", "", src.text(*t["range"]))]
+            if not c:
+                continue
+            n = min(c, key=lambda t: t["range"][1] - t["range"][0])
+        else:
+            k = sp["n"]
+            if k >= len(tries):
+                raise LostAnchor(f"`?` #{k} of {item['path']}")
+            n = tries[k]
         conv = sp.get("conv", "")
         hint = sp.get("hint", "")
         kind = sp.get("kind", "result")
